@@ -175,6 +175,19 @@ async fn episode(p: &EpParams) -> EpReport {
                 }
                 rep.inc("crossing_deletes_with_publish_burst");
             }
+            // one episode in five: the topic is deleted in the same instant (the two deletions cross)
+            if rng.chance(1, 5) && !topic_deleted_first {
+                let (cx, t3) = (Cx::new(&w, 81), t.clone());
+                let turns = rng.below(6);
+                kinds.push("DeleteTopic");
+                inflight.push(("DeleteTopic", tokio::spawn(async move {
+                    for _ in 0..turns {
+                        tokio::task::yield_now().await;
+                    }
+                    cx.delete_topic(&t3).await.map_err(|e| e.code() as i32)
+                })));
+                rep.inc("topic_deleted_in_the_same_instant");
+            }
             if race_publish {
                 let cx = Cx::new(&w, 2);
                 let t2 = t.clone();
